@@ -453,12 +453,12 @@ package semver
 // Three-number versions compare by their numbers, first difference deciding;
 // with equal numbers a prerelease is below the release (used where compare
 // is referenced by symbol, C03).
-//@ pred lexLess3(a *Version, b *Version) = a.num[0] < b.num[0] || (a.num[0] == b.num[0] && (a.num[1] < b.num[1] || (a.num[1] == b.num[1] && a.num[2] < b.num[2])))
-//@ pred lexEq3(a *Version, b *Version) = a.num[0] == b.num[0] && a.num[1] == b.num[1] && a.num[2] == b.num[2]
+//@ pred lexLess3(a *Version, b *Version) = a.getNum(0) < b.getNum(0) || (a.getNum(0) == b.getNum(0) && (a.getNum(1) < b.getNum(1) || (a.getNum(1) == b.getNum(1) && a.getNum(2) < b.getNum(2))))
+//@ pred lexEq3(a *Version, b *Version) = a.getNum(0) == b.getNum(0) && a.getNum(1) == b.getNum(1) && a.getNum(2) == b.getNum(2)
 //@ lemma compare.plain.nums3
 //@   vars a, b *Version
 //@   unfold compare
-//@   requires plain(a) && plain(b) && sameSys(a, b) && len(a.num) == 3 && len(b.num) == 3
+//@   requires plain(a) && plain(b) && sameSys(a, b) && len(a.num) <= 3 && len(b.num) <= 3
 //@   ensures imp(lexLess3(a, b), compare(a, b) < 0)
 //@   ensures imp(lexEq3(a, b) && len(a.pre) == 0 && len(b.pre) == 0, compare(a, b) == 0)
 //@   ensures imp(lexEq3(a, b) && len(a.pre) > 0 && len(b.pre) == 0, compare(a, b) < 0)
@@ -666,7 +666,7 @@ package semver
 // does one in which every number after a marker is the marker already, when
 // the fill value is the marker itself. (Stated for exactly three numbers, which
 // keeps the conditions free of quantifiers.)
-//@ pred noMarker(v *Version, marker value) = len(v.num) == 3 && v.num[0] != marker && v.num[1] != marker && v.num[2] != marker
+//@ pred noMarker(v *Version, marker value) = 1 <= len(v.num) && len(v.num) <= 3 && v.getNum(0) != marker && v.getNum(1) != marker && v.getNum(2) != marker
 //@ pred tailClosed(v *Version, m value) = len(v.num) == 3 && imp(v.num[0] == m, v.num[1] == m) && imp(v.num[1] == m, v.num[2] == m)
 //@ func (*Version).setTail
 //@   requires v != nil
@@ -693,8 +693,8 @@ package semver
 //@   requires v != nil
 //@   ensures fresh(result)
 //@   ensures touches()
-//@   ensures imp(old(v.ext == nil) && old(len(v.num) == 3), result.ext == nil && result.sys == v.sys && len(result.num) == 3 && backed(result.num, &result.buf) &&
-//@           imp(old(backed(v.num, &v.buf)), result.num[0] == v.num[0] && result.num[1] == v.num[1] && result.num[2] == v.num[2]) &&
+//@   ensures imp(old(v.ext == nil) && old(len(v.num) <= 3), result.ext == nil && result.sys == v.sys && len(result.num) == len(v.num) && backed(result.num, &result.buf) &&
+//@           imp(old(backed(v.num, &v.buf)), result.getNum(0) == v.getNum(0) && result.getNum(1) == v.getNum(1) && result.getNum(2) == v.getNum(2)) &&
 //@           len(result.pre) == len(v.pre) && result.isPrerelease == v.isPrerelease && result.build == v.build)
 //@   property C03
 
@@ -721,10 +721,18 @@ package semver
 //@   ensures imp(old(i < len(v.num)), samearr(v.num, old(v.num)) && len(v.num) == old(len(v.num)) && cap(v.num) == old(cap(v.num)) &&
 //@           rowis(v.num, old(v.num), i, val))
 //@   ensures samearr(v.num, old(v.num)) || fresh(v.num) || backed(v.num, &v.buf)
+//@   ensures imp(old(i >= len(v.num)), len(v.num) == i + 1)
+//@   ensures forall(k, 0, old(len(v.num)), imp(k != i, v.num[k] == old(v.num[k])))
+//@   ensures forall(k, old(len(v.num)), len(v.num), imp(k != i, v.num[k] == 0))
+//@   ensures imp(old(backed(v.num, &v.buf)) && old(len(v.num) > 0) && i < 3, backed(v.num, &v.buf))
 //@   loop 0
 //@     invariant imp(old(i < len(v.num)), touches())
 //@     invariant imp(old(len(v.num) > 0), touches(&v.num, old(v.num)) && len(v.num) > 0 && (samearr(v.num, old(v.num)) || fresh(v.num)))
 //@     invariant touches(&v.num, old(v.num), &v.buf) && (samearr(v.num, old(v.num)) || fresh(v.num) || backed(v.num, &v.buf))
+//@     invariant old(len(v.num)) <= len(v.num) && imp(old(i >= len(v.num)), len(v.num) <= i + 1)
+//@     invariant forall(k, 0, old(len(v.num)), v.num[k] == old(v.num[k]))
+//@     invariant forall(k, old(len(v.num)), len(v.num), v.num[k] == 0)
+//@     invariant imp(old(backed(v.num, &v.buf)) && old(len(v.num) > 0) && i < 3, backed(v.num, &v.buf))
 //@   property C03
 
 // inc on such a version without prerelease steps the last number.
@@ -754,6 +762,32 @@ package semver
 //@      (v.sys == NPM || v.sys == Cargo || v.sys == DefaultSystem)
 //@ pred nums3(v *Version, a value, b value, c value) = v != nil && len(v.num) == 3 && v.num[0] == a && v.num[1] == b && v.num[2] == c
 //@ pred bounds(sp span, loOpen bool, hiOpen bool) = sp.minOpen == loOpen && sp.maxOpen == hiOpen && sp.min != nil && sp.max != nil
+
+// Two-number (partial) versions: M.m stands for M.m.x.
+//@ pred okNums2(v *Version) = len(v.num) == 2 && 0 <= v.num[0] && v.num[0] < infinity && 0 <= v.num[1] && v.num[1] < infinity
+//@ pred simple2(v *Version) = v != nil && v.ext == nil && okNums2(v) && backed(v.num, &v.buf) && len(v.pre) == 0 &&
+//@      (v.sys == NPM || v.sys == Cargo || v.sys == DefaultSystem)
+//@ pred numsG(v *Version, a value, b value, c value) = v != nil && 1 <= len(v.num) && len(v.num) <= 3 && v.getNum(0) == a && v.getNum(1) == b && v.getNum(2) == c
+//@ func opVersionToSpan ~simple2
+//@   requires simple2(lo)
+//@   prune
+//@   abstract (*Version).rebuildExtension
+//@   uses compare.plain.nums3 compare.plain.laws
+//@   ensures imp((typ == tokEmpty || typ == tokEqual || typ == tokTilde), result1 == nil && result0.rank == vector && bounds(result0, false, false) &&
+//@           numsG(result0.min, old(lo.num[0]), old(lo.num[1]), 0) && len(result0.min.pre) == 0 && nums3(result0.max, old(lo.num[0]), old(lo.num[1]), infinity))
+//@   ensures imp(typ == tokCaret && old(lo.num[0]) > 0, result1 == nil && result0.rank == vector && bounds(result0, false, false) &&
+//@           numsG(result0.min, old(lo.num[0]), old(lo.num[1]), 0) && len(result0.min.pre) == 0 && nums3(result0.max, old(lo.num[0]), infinity, infinity))
+//@   ensures imp(typ == tokCaret && old(lo.num[0]) == 0, result1 == nil && result0.rank == vector && bounds(result0, false, false) &&
+//@           numsG(result0.min, 0, old(lo.num[1]), 0) && len(result0.min.pre) == 0 && nums3(result0.max, 0, old(lo.num[1]), infinity))
+//@   ensures imp(typ == tokLess && !(old(lo.num[0]) == 0 && old(lo.num[1]) == 0), result1 == nil && result0.rank == vector && bounds(result0, false, true) &&
+//@           nums3(result0.min, 0, 0, 0) && len(result0.min.pre) == 1 && numsG(result0.max, old(lo.num[0]), old(lo.num[1]), 0) && len(result0.max.pre) == 0)
+//@   ensures imp(typ == tokLessEqual, result1 == nil && result0.rank == vector && bounds(result0, false, false) &&
+//@           nums3(result0.min, 0, 0, 0) && len(result0.min.pre) == 1 && nums3(result0.max, old(lo.num[0]), old(lo.num[1]), infinity) && len(result0.max.pre) == 0)
+//@   loop 0
+//@     invariant loopframe(hi.num) && forall(k, 0, rangeidx + 1, hi.num[k] == infinity)
+//@   loop 1
+//@     invariant loopframe()
+//@   property C03
 
 //@ func opVersionToSpan ~simple3
 //@   requires simple3(lo)
